@@ -95,7 +95,7 @@ OBLIGATIONS = [
        bytes_params("r", 4) + [("s0", "int:0:4"), ("e0", "int:0:4"), ("s1", "int:0:4"), ("e1", "int:0:4"),
                                 ("f0", "bool"), ("f1", "bool"), ("q0", "bool"), ("q1", "bool"), ("v0", "byte"), ("v1", "byte"),
                                 ("g", "bool")],
-       pre=_SP, tier="both", timeout=900, layer="B",
+       pre=_SP, tier="both", timeout=500, layer="B",
        splits=[f"f0 == {a} and f1 == {b} and g == {c}" for a in (True, False) for b in (True, False) for c in (True, False)],
        functions=["multidecoder.node.Node.flatten", "multidecoder.query.squash_replace"],
        bound="root text of 4 free bytes; 2 children with free in-bounds spans ordered by start (all combinations, incl. "
@@ -128,5 +128,5 @@ OBLIGATIONS.append(Ob("flatten_identity_when_nothing_decoded", identity_plain,
                       bytes_params("r", 5) + [("s0", "int:0:5"), ("e0", "int:0:5"), ("s1", "int:0:5"), ("e1", "int:0:5"),
                                                ("s2", "int:0:5"), ("e2", "int:0:5")],
                       pre="0 <= s0 <= e0 <= 5 and 0 <= s1 <= e1 <= 5 and s0 <= s1 and 0 <= s2 <= e2 <= 5",
-                      tier="both", timeout=900, layer="B", functions=["multidecoder.node.Node.flatten"],
+                      tier="both", timeout=500, layer="B", functions=["multidecoder.node.Node.flatten"],
                       bound="root of 5 free bytes, two plain children (one of '...string' type) and a plain grandchild, all spans free"))
